@@ -1,7 +1,7 @@
 """C20 — randomly generated arguments always inhabit the requested types (structural clauses)."""
 import re
 
-from facts import AnchorMissing, callee, calls, expr_path, lit_value, nodes, pat_variants, peel, short, unblock, walk
+from facts import AnchorMissing, term_callee, callee, calls, expr_path, lit_value, nodes, pat_variants, peel, short, unblock, walk
 from shared import TI, Matrix, arm_rows, the_match
 from c18_util import (NON_LENGTHENING, ORDER_PRESERVING, PANIC_MACROS, ancestors, bind_names, chain_root, contains, diverges,
                       is_panic_expr, is_try_return,
@@ -151,9 +151,8 @@ def run(chk, facts, tier, only=None):
                 chk.ok(f"any:handles:{X}", "explicit non-panicking arm" if X in named else "non-panicking catch-all", nontrivial=False)
         chk.assume("C20.R1: Knot/Unknown/Future do not occur in a checked TypeEnv and Class only as the actor type (C14); the "
                    "environment passed to random::any is closed (rec_find_type in size_helper cannot fail)")
-        chk.assume("C20.R1: overflow of `+`/`*` on usize size sums and of `±1` on the isize depth/size budgets exists only with "
-                   "overflow checks (debug profile) and needs > 2^63 type nodes or a configured budget of isize::MIN/MAX; these "
-                   "sites are counted, not decided")
+        chk.assume("C20.R1: overflow of `±1` on the isize depth/size budgets exists only with overflow checks (debug profile) and needs a "
+                   "configured budget of isize::MIN/MAX; these sites are counted, not decided (the usize size estimate is decided by C20.R5)")
         # ---- panic-capable constructs of the generator (functions reachable from random::any, closures inlined)
         fns = [x for x in cp.fns(r"^(<)?" + RND) if x.get("kind") in ("Fn", "AssocFn") and "::_::" not in x["key"]
                and not re.search(r" as core::(fmt::Debug|clone::Clone|default::Default)>", x["key"])
@@ -908,10 +907,65 @@ def run(chk, facts, tier, only=None):
                        f"non-error path; final pop element equal: {same} ({elem_sig(s['args'][1])} vs {esig}); {why}",
                        where=f"{h['span']['file']}:{p.get('ln')}", ok_detail="popped with the same element on every non-error path")
 
+
+    # ------------------------------------------------------------------------------------------------- R5
+    def r5():
+        """The size estimate that decides between the recursive and the bounded generator (`size`, `size_helper`) is computed by a
+        self-recursive function whose result doubles per `vec` level (`1 + s * 2`): any checked `+`/`*` in it traps for a type a
+        checked program can contain (65 nested `vec`s, written as 65 one-line aliases). The function is found by role: the
+        self-recursive function of random.rs that returns Option<usize>."""
+        cands = []
+        for k, b in cp.bodies.items():
+            if not k.startswith(RND) or "{closure" in k:
+                continue
+            h = cp.hir.get(k)
+            sig = next((i.get("sig") or "" for i in cp.items if i["kind"] == "fn" and i.get("key") == k), "")
+            selfrec = any(t.get("k") == "call" and (term_callee(t)[0] or "") == k for t in (bl["t"] for bl in b.blocks))
+            if selfrec and re.search(r"->\s*(core::option::)?Option<usize>", sig or ""):
+                cands.append((k, b))
+        if not cands:
+            raise AnchorMissing("no self-recursive function returning Option<usize> in candid_parser::random (the size estimate, `size_helper`)")
+        for k, b in cands:
+            chk.analysed(k)
+            traps = [(t.get("msg"), t.get("ln")) for t in (bl["t"] for bl in b.blocks if not bl.get("c")) if t.get("k") == "assert" and str(t.get("msg", "")).startswith("overflow")]
+            muls = [x for x in traps if x[0] == "overflow:Mul"]
+            short = k.split("::")[-1]
+            chk.expect(not traps, f"size-estimate:{short}:no-trapping-arithmetic",
+                       f"{k}: {len(traps)} overflow-checked operation(s) ({', '.join(sorted(set(m for m, _ in traps)))} at lines {sorted(set(l for _, l in traps))}) on a "
+                       f"value that {'doubles per `vec` level' if muls else 'grows with the type'}: for `type t0 = vec nat; type t1 = vec t0; … type t64 = vec t63` the estimate exceeds "
+                       f"usize::MAX and `random::any` panics (overflow checks on) instead of returning a value or an error; with checks off it wraps to a small "
+                       f"number and the bounded generator is chosen for a huge type",
+                       where=f"{(cp.hir.get(k) or {}).get('span', {}).get('file')}:{traps[0][1] if traps else ''}",
+                       ok_detail="saturating / checked arithmetic only")
+        # (no rule on `size / elem_size` in the Vec arm: the closure that divides runs only when `width` is None, and every configuration
+        #  starts from GenConfig::default() (width = Some(10)) and can only overwrite it with Some — no input reaches the division)
+        # (b) the weights handed to arbitrary_variant are size estimates (up to usize::MAX after saturation): their running sum must not trap either
+        av = [(k, b) for k, b in cp.bodies.items() if k.startswith(RND + "arbitrary_variant")]
+        if not av:
+            raise AnchorMissing("candid_parser::random::arbitrary_variant not found")
+        bad_sum = []
+        for k, b in av:
+            chk.analysed(k)
+            for bl in b.blocks:
+                t = bl["t"]
+                if bl.get("c"):
+                    continue
+                if t.get("k") == "assert" and str(t.get("msg")) in ("overflow:Add", "overflow:Mul"):
+                    bad_sum.append((k, t.get("ln"), t.get("msg")))
+                if t.get("k") == "call":
+                    d_, r_ = term_callee(t)
+                    if re.search(r"ops::arith::(AddAssign|Add|MulAssign|Mul)(<[^>]*>)?>?::(add_assign|add|mul_assign|mul)$", (r_ or d_ or "")) and "usize" in (r_ or d_ or "") + str(t.get("f")):
+                        bad_sum.append((k, t.get("ln"), "operator call " + (r_ or d_)))
+        chk.expect(not bad_sum, "size-estimate:arbitrary_variant:weight-sum-does-not-trap",
+                   f"arbitrary_variant adds its weights with an overflow-checked `+` ({bad_sum[:2]}): the weights are size estimates, and two fields of about 2^63 "
+                   f"(63 nested `vec`s each) already overflow the running sum — `random::any` panics with overflow checks on",
+                   where=f"rust/candid_parser/src/random.rs:{bad_sum[0][1] if bad_sum else ''}", ok_detail="saturating / checked sum")
+
     for rid, desc, f_ in (("C20.R1", "RandState::any panics for no reachable TypeInner variant; panic-capable constructs of random.rs are discharged", r1),
                           ("C20.R2", "configured values are parsed and pass annotate_type at the requested type before being returned", r2),
                           ("C20.R3", "generated values have the type's constructor, labels, field order, variant index and payload types", r3),
-                          ("C20.R4", "depth/size budget bookkeeping; push_state/pop_state paired with the same element", r4)):
+                          ("C20.R4", "depth/size budget bookkeeping; push_state/pop_state paired with the same element", r4),
+                          ("C20.R5", "the size estimate of a type is computed without trapping arithmetic", r5)):
         if only and only != rid:
             continue
         chk.run_rule(rid, desc, f_)
